@@ -103,6 +103,9 @@ func escape(s string) string {
 }
 
 func isNumeric(s string) bool {
+	if len(s) > 1 && s[0] == '0' && s[1] != '.' {
+		return false // JSON numbers have no leading zeros (007 has to stay a string)
+	}
 	i := 0
 	for ; i < len(s); i++ {
 		r := s[i]
